@@ -180,9 +180,12 @@ func runC06(e *core.Env, n int, race bool) {
 	// (3) early return: Invoke returns on cancel before the handler has decoded the request
 	e.Cases("early-return", n/2, func(i int, r *rand.Rand) {
 		ci := i % len(choices)
-		seen, orig, placed := earlyReturnUnary(e, "C06", carriers[ci], "inproc/"+choices[ci].name, r)
+		seen, orig, resp, placed := earlyReturnUnaryResp(e, "C06", carriers[ci], "inproc/"+choices[ci].name, r)
 		if !placed {
 			return
+		}
+		if proto.Size(resp) != 0 {
+			e.Violate("inproc/"+choices[ci].name+"/unary/write-after-return", "Invoke had returned (cancelled) before the handler ran; afterwards the library wrote the handler's response into the caller's response object: "+msgDesc(resp), map[string]any{"cloner": choices[ci].name, "response_object": msgDesc(resp)})
 		}
 		e.Eval(fmt.Sprintf("early-return|%s", choices[ci].name), true)
 		e.Count("early_returns_placed", 1)
@@ -245,6 +248,12 @@ func checkC06Dynamic(e *core.Env) {
 // parked at its very start, lets the caller overwrite its request (legal once Invoke has returned) and
 // then lets the server side go on. It reports what the handler decoded (nil if it never got that far).
 func earlyReturnUnary(e *core.Env, prop string, c *Carrier, name string, r *rand.Rand) (seen, orig *tpb.Message, placed bool) {
+	seen, orig, _, placed = earlyReturnUnaryResp(e, prop, c, name, r)
+	return
+}
+
+// earlyReturnUnaryResp also reports the caller's response object as it is once the server side has finished.
+func earlyReturnUnaryResp(e *core.Env, prop string, c *Carrier, name string, r *rand.Rand) (seen, orig, resp *tpb.Message, placed bool) {
 	sc := genDeliveryScript(r, Unary, false, false)
 	if len(sc.UnaryReq.Payload) == 0 {
 		sc.UnaryReq.Payload = []byte("early-return-payload")
@@ -266,17 +275,18 @@ func earlyReturnUnary(e *core.Env, prop string, c *Carrier, name string, r *rand
 	ctx, cancel := context.WithCancel(metadata.AppendToOutgoingContext(context.Background(), runKey, run.ID))
 	defer cancel()
 	res := make(chan error, 1)
-	go func() { res <- c.CC.Invoke(ctx, Unary.Method(), req, new(tpb.Message)) }()
+	resp = new(tpb.Message)
+	go func() { res <- c.CC.Invoke(ctx, Unary.Method(), req, resp) }()
 	select {
 	case <-plan.parked:
 	case err := <-res:
 		plan.Release()
 		e.Inconclusive("%s early-return: Invoke returned before the server goroutine reached its start hook: %v", prop, err)
-		return nil, orig, false
+		return nil, orig, resp, false
 	case <-time.After(watchdog):
 		plan.Release()
 		e.Inconclusive("%s early-return: hook not reached", prop)
-		return nil, orig, false
+		return nil, orig, resp, false
 	}
 	cancel()
 	select {
@@ -284,7 +294,7 @@ func earlyReturnUnary(e *core.Env, prop string, c *Carrier, name string, r *rand
 	case <-time.After(watchdog):
 		plan.Release()
 		e.Inconclusive("%s early-return: Invoke did not return after cancel", prop)
-		return nil, orig, false
+		return nil, orig, resp, false
 	}
 	// Invoke has returned: the caller may reuse its message
 	mutateMsg(req)
@@ -296,5 +306,5 @@ func earlyReturnUnary(e *core.Env, prop string, c *Carrier, name string, r *rand
 	}
 	mu.Lock()
 	defer mu.Unlock()
-	return seen, orig, true
+	return seen, orig, resp, true
 }
